@@ -23,13 +23,14 @@ META = dict(
 )
 
 
-def _mk(kind, custom=True, seed=0):
+def _mk(kind, custom=True, seed=0, ud=None):
     import torch
     from qucumber.nn_states import PositiveWaveFunction, ComplexWaveFunction, DensityMatrix
     from qucumber.rbm import PurificationRBM
     from qucumber.utils import unitaries
 
-    ud = unitaries.create_dict(T=torch.tensor([[[0.6, 0.8], [0.8, -0.6]], [[0.0, 0.0], [0.0, 0.0]]], dtype=torch.double)) if custom else None
+    if ud is None:
+        ud = unitaries.create_dict(T=torch.tensor([[[0.6, 0.8], [0.8, -0.6]], [[0.0, 0.0], [0.0, 0.0]]], dtype=torch.double)) if custom else None
     if kind == "positive":
         st = PositiveWaveFunction(2, 3, gpu=False)
     elif kind == "complex":
@@ -122,8 +123,23 @@ def history(I, kind="complex", length=3, twin=False):
                 if f not in stored:
                     continue
                 if op == 4:
-                    Bm = _mk(kind, custom=True, seed=7)
-                    Bm.load(path)
+                    if kind == "positive":
+                        Bm = _mk(kind, custom=True, seed=7)
+                        Bm.load(path)
+                    else:
+                        # the receiver and a bystander are built from ONE user-supplied dictionary whose T (and Y) differ from the
+                        # file's: loading replaces the receiver's dictionary and leaves the caller's object and the bystander alone
+                        from qucumber.utils import unitaries as _u
+
+                        shared = _u.create_dict(T=torch.tensor([[[0.0, 1.0], [1.0, 0.0]], [[0.0, 0.0], [0.0, 0.0]]], dtype=torch.double),
+                                                Y=torch.tensor([[[0.6, 0.0], [0.0, 0.6]], [[0.8, 0.0], [0.0, -0.8]]], dtype=torch.double))
+                        shared_before = {k: v.clone() for k, v in shared.items()}
+                        Bm = _mk(kind, custom=True, seed=7, ud=shared)
+                        Cm = _mk(kind, custom=True, seed=9, ud=shared)
+                        Bm.load(path)
+                        for holder, dct in (("the caller's dictionary object", shared), ("a bystander model built from the same dictionary", Cm.unitary_dict)):
+                            if sorted(dct) != sorted(shared_before) or any(not torch.equal(dct[k], shared_before[k]) for k in shared_before):
+                                return False, "%s: load() into one model changed %s" % (tag, holder)
                 elif op == 5:
                     other = {"mixed": "mixed-module", "mixed-module": "mixed"}.get(kind, kind)
                     Bm = _mk(other, custom=False, seed=8)  # receiver built the other way, with the default dictionary
